@@ -857,7 +857,14 @@ def build_life(ctx, tier, rnd, labels=None, extra_pfx=(), depth=None, walks=None
 
 
 def build_C09(ctx, tier, rnd):
-    return build_life(ctx, tier, rnd, labels=['q', 's', 'ok', 'fail', 'R', 'u1', 'u2', 'u3', 'rb1', 'rb5', 'ck2', 'udl3', 'uperr'])
+    hs = build_life(ctx, tier, rnd, labels=['q', 's', 'ok', 'fail', 'R', 'u1', 'u2', 'u3', 'rb1', 'rb5', 'ck2', 'udl3', 'uperr'])
+    # scale: a long-running process (hundreds of calls, installs and launch reports without a restart in between, the
+    # same query repeated many times) - anything that accumulates or is cached across calls
+    al = gen.Alphabet(ctx)
+    wl = ['q', 'q', 'q', 'p', 'c', 's', 'ok', 'fail', 'u1', 'u2', 'u3', 'u1b', 'rb1', 'rb2', 'rb12', 'ck2', 'upnone', 'uperr', 'udl2']
+    hs += gen.random_walks(al, wl, [1] * len(wl), 3 if tier == 'quick' else 40, (400, 600), rnd, name='long')
+    hs += [(n_ + 'rn', renumber(o_)) for n_, o_ in hs[-1:]]
+    return hs
 
 
 C09_RULE = ('exhaustive depth-k continuations of 7 lifecycle prefixes incl. lower-numbered installs and installs during boot + random walks; updates that fail '
@@ -2461,6 +2468,43 @@ def run_C05(pid, tier, seed, model_ok=True):
         a['evaluations'] += nf
         a['dist'] = dict(a.get('dist', {}), update_x_failing_call_incl_download_files=nf)
         android_base_stream(a, random.Random(seed + 5), work)
+        # the same property at another SCALE: a base binary of 150 000 bytes (downloads, inflated files and artifacts
+        # well beyond every buffer: 8 KiB BufReader/BufWriter, 64 KiB pipe), genuine and damaged downloads, leftovers
+        ctxb = Ctx(seed=seed + 9, nums=(1, 2, 3), base_len=150000)
+        try:
+            rb_ = random.Random(seed + 9)
+            alb = gen.Alphabet(ctxb)
+            d2 = ctxb.blobs[ctxb.p['2']['dl']]
+            variants = {'flip_mid': d2[:len(d2) // 2] + bytes([d2[len(d2) // 2] ^ 0x40]) + d2[len(d2) // 2 + 1:],
+                        'cut_last': d2[:-1], 'cut_half': d2[:len(d2) // 2], 'plus_one': d2 + b'\x00'}
+            for vn, data in variants.items():
+                ctxb.add_blob('big_' + vn, data)
+                ctxb.add_zdec_real('big_' + vn)
+            hb = []
+            for pk in ('empty', 'good1'):
+                pre = [alb.init] + alb.seq(PFX[pk])
+                hb.append(('big_ok_%s' % pk, pre + alb.seq(['u2', 'q', 'p', 's', 'ok', 'R', 'q', 'p'])))
+                for vn in variants:
+                    hb.append(('big_%s_%s' % (vn, pk), pre + [op_update(ctxb, 2, dl='@big_' + vn)] + alb.seq(['q', 'u2', 'q', 'p'])))
+            headerb = ctxb.header()
+            mb, ib, exb = run_both(headerb, hb, os.path.join(work, 'big'), impl_only=not model_ok)
+            a['extras'] += exb
+            if model_ok:
+                for (h, idx, ml, il) in diff_traces(mb, ib):
+                    a['divergences'].append((h, idx, ml, il, dict(hb)[h], headerb))
+            for name, ops in hb:
+                tr = ib.get(name)
+                if tr is None or len(tr) != len(ops):
+                    a['extras'].append('C05 large binaries: incomplete implementation trace for %s' % name)
+                    continue
+                a['evaluations'] += len(ops)
+                pops, sts = [gen.parse_op(o) for o in ops], [parse_line(l) for l in tr]
+                for m_ in (monitors.mon_C05, monitors.mon_healthy):
+                    for (idx, msg) in m_(ctxb, pops, sts):
+                        a['monitor_fail'].append((name, idx, '150 000-byte binaries: ' + msg, ops, headerb))
+            a['dist'] = dict(a.get('dist', {}), large_binary_histories=len(hb))
+        finally:
+            ctxb.cleanup()
     finally:
         ctx.cleanup()
         shutil.rmtree(work, ignore_errors=True)
